@@ -676,6 +676,12 @@ func run(cfg *Config, opt core.Options, res *core.Result) *sim {
 				if s.stop {
 					break
 				}
+				if s.opt.Property == "C03" || s.frng.Chance(1, 4) {
+					s.byzantine(parent, blk)
+					if s.stop {
+						break
+					}
+				}
 			}
 			res.Stat("blocks_fork_"+forkName(blk.post.st), 1)
 			for bit, name := range []string{"attestations", "proposer_slashing", "attester_slashing", "deposit", "exit", "sync_aggregate", "payload", "withdrawals", "bls_change", "blobs"} {
